@@ -80,6 +80,26 @@ def cases(shard, rnd):
     yield {'type': 'mutants', 'tail': b'',
            'inputs': [b for b, _ in faults.short_payloads(rnd)] +
            [b for b, _ in faults.random_inputs(rnd, 400)]}
+    # EVERY type octet 0..255 in front of a well-formed envelope (payloads
+    # of real frames, of 1 and 4 bytes, empty), alone and directly followed
+    # by a complete valid frame, by a protocol header, by a frame end: a
+    # decoder that learns to skip, merge or reinterpret one more frame type
+    # shows here and nowhere else
+    if shard['i'] == 0:
+        donors = [wire.any_frame(rnd) for _ in range(6)]
+        pay = [b'', b'\x00', b'ping', b'\x00\x0a\x00\x0a'] + [
+            bytes(f.data[7:-1]) for f in donors if f.data[:4] != b'AMQP']
+        follow = [b'', b'\xce', b'AMQP\x00\x00\x09\x01',
+                  bytes(wire.heartbeat_frame(rnd).data)] + [
+                      bytes(f.data) for f in donors[:3]]
+        inputs = []
+        for t_ in range(256):
+            for p_ in pay:
+                fr_ = struct.pack('>BHI', t_, rnd.choice([0, 1, 7]),
+                                  len(p_)) + p_ + b'\xce'
+                for fo in follow:
+                    inputs.append(fr_ + fo)
+        yield {'type': 'mutants', 'tail': b'', 'inputs': inputs}
     # the bare 7-byte headers of every frame type
     yield {'type': 'mutants', 'tail': b'', 'inputs': [
         struct.pack('>BHI', t, ch, sz) + extra
